@@ -49,6 +49,9 @@ func validMap(tt *TermTable, s *Term) *Term {
 func (ex *Exec) encMap(m *MapObj) *Term {
 	tt := ex.tt
 	var h, v *Term
+	if m != nil && m.src != nil {
+		return m.src
+	}
 	if m == nil {
 		h, v = tt.ConstArr(SArrSB, tt.Bool(false)), tt.ConstArr(SArrSS, tt.Str(""))
 	} else {
@@ -321,6 +324,7 @@ func (ex *Exec) jsonUnmarshal(data *BytesV, dst *IfaceV) Value {
 			} else {
 				m = ex.opaqueSymMap(decMapHas(tt, s), decMapVal(tt, s))
 			}
+			m.src = s
 			ex.store(p, &MapV{m: m})
 			return nilErr()
 		}
